@@ -1398,12 +1398,28 @@ def check_wait_sent(ctx):
         ctx.undecided('SENT', func, 'start loop / sentinel loop not found',
                       at=func.where())
     else:
+        # `threads = started` : the list the sentinels are counted on may be
+        # an alias of the list the start loop fills
+        alias = {}
+        for node in walk_local(func.node):
+            if isinstance(node, ast.Assign) and len(node.targets) == 1 and \
+                    isinstance(node.targets[0], ast.Name) and isinstance(
+                        node.value, ast.Name):
+                alias[node.targets[0].id] = node.value.id
+
+        def root(name):
+            seen = set()
+            while name in alias and name not in seen:
+                seen.add(name)
+                name = alias[name]
+            return name
         ctx.decide('SENT', func,
                    f'workers started over `{txt(start_loop.iter)}`, '
                    f'sentinels put over `{txt(put_loop.iter)}`',
                    txt(start_loop.iter) == txt(put_loop.iter) or
-                   txt(put_loop.iter) in {
-                       dotted(receiver(c)) for s in start_loop.body
+                   root(txt(put_loop.iter)) in {
+                       root(dotted(receiver(c)) or '')
+                       for s in start_loop.body
                        for c in calls_in(s) if call_name(c) == 'append'},
                    at=func.where(put_loop),
                    detail='one sentinel per started worker')
